@@ -10,7 +10,10 @@ import coqparse
 import vlib
 
 LEVEL = "proof"
-RULE = ("generated pairwise_ranks.tsv files for outrank_task_result_summary: 0..12 features (plain, transformer-suffixed, "
+RULE = ("generated pairwise_ranks.tsv files for outrank_task_result_summary: 0..12 features, 8 % of the tables with 21..60 listed "
+        "features, args.tldr in {'True','False',True,False,''} (the written file is judged, whatever is printed), 15 % histories of "
+        "2-3 successive calls on ONE output folder with different (label_column, heuristic, interaction_order), every call's files "
+        "judged against the model for its own arguments; features (plain, transformer-suffixed, "
         "' AND ' interactions of order <= 3), annotated '-(cardinality; coverage)' or plain names, 1..4 label rows per feature in "
         "either orientation, feature-feature rows, label-label rows, label-prefixed look-alikes, names containing AND / and / BRAND / "
         "'AND' alone / a dash / a blank, labels with a dash, negative / tied / decimal / dyadic / nearly equal "
@@ -44,11 +47,29 @@ FIXED_NAMES = ["BRAND", "AND", "and", "ANDROID", "sAND", "x AND", "AND y", "a-b"
 DASH_LABELS = ["my-label", "y-1"]
 
 
-def gen_case(rng):
+TLDRS = ["True", "False", True, False, ""]     # the CLI passes the STRINGS 'True' / 'False' (both truthy)
+
+
+def calls_of(case):
+    """The successive summary calls of a case (single-call cases keep label / heuristic / order at the top, tldr False)."""
+    if case.get("calls"):
+        return case["calls"]
+    return [dict(label=case["label"], heuristic=case["heuristic"], order=case["order"], tldr=case.get("tldr", False))]
+
+
+def unit_of(case, call):
+    return dict(rows=case["rows"], label=call["label"], heuristic=call["heuristic"], order=call["order"], tldr=call.get("tldr", False))
+
+
+def gen_case(rng, big=False, history=False):
     label = rng.choice(LABELS) if rng.random() < 0.95 else rng.choice(DASH_LABELS)
     annotated = rng.random() < 0.5
     order = rng.choice([1, 1, 2, 2, 3])
     nbase = rng.randint(0, 7) if rng.random() < 0.85 else rng.randint(8, 12)
+    if big:                                     # more than 20 listed features: the tldr preview must not touch the file
+        nbase = rng.randint(21, 60)
+    elif history:
+        nbase = rng.randint(3, 9)
     base = []
     seen = {label}
     while len(base) < nbase:
@@ -93,26 +114,47 @@ def gen_case(rng):
             return "1.%012d" % rng.randint(0, 99)
         return "%.9f" % rng.uniform(0.0, 0.001)
     rows = []
-    all_equal = rng.random() < 0.06
+    all_equal = rng.random() < 0.06 and not big
     const = score()
-    for f in feats:
-        if rng.random() < 0.12:
-            continue                      # a feature never scored against the label
-        for _ in range(rng.choice([1, 1, 2, 2, 3, 4])):
-            s = const if all_equal else score()
-            if rng.random() < 0.5:
-                rows.append([full[f], lab_full, s])
-            else:
-                rows.append([lab_full, full[f], s])
-    if rng.random() < 0.4:
-        rows.append([lab_full, lab_full, const if all_equal else score()])
+    # history cases: one table holding the pairs of several label columns (as after --target_ranking_only False)
+    labels = [label]
+    if history:
+        cand = [f for f in base if "-" not in f]
+        rng.shuffle(cand)
+        labels += cand[:rng.choice([1, 1, 2])]
+    for lab in labels:
+        lab_name = lab_full if lab == label else full[lab]
+        for f in feats:
+            if f == lab:
+                continue
+            if rng.random() < (0.03 if big else 0.12):
+                continue                      # a feature never scored against this label
+            for _ in range(rng.choice([1, 1, 2]) if big else rng.choice([1, 1, 2, 2, 3, 4])):
+                s = const if all_equal else score()
+                if rng.random() < 0.5:
+                    rows.append([full[f], lab_name, s])
+                else:
+                    rows.append([lab_name, full[f], s])
+        if rng.random() < 0.4:
+            rows.append([lab_name, lab_name, const if all_equal else score()])
     for _ in range(rng.randint(0, 6)):
         if len(feats) >= 1:
             a, b = rng.choice(feats), rng.choice(feats)
             rows.append([full[a], full[b], score()])
     rng.shuffle(rows)
-    heur = rng.choice(HEUR_MI) if rng.random() < 0.55 else rng.choice(HEUR_NO)
-    return dict(rows=rows, label=label, heuristic=heur, order=order)
+
+    def heur():
+        return rng.choice(HEUR_MI) if rng.random() < 0.55 else rng.choice(HEUR_NO)
+    if not history:
+        return dict(rows=rows, label=label, heuristic=heur(), order=order, tldr=rng.choice(TLDRS))
+    # 2-3 successive calls on the same folder with different (label_column, heuristic, interaction_order)
+    calls = []
+    for k in range(rng.choice([2, 2, 3])):
+        lab = labels[k % len(labels)] if rng.random() < 0.8 else rng.choice(labels)
+        calls.append(dict(label=lab, heuristic=heur(), order=rng.choice([1, 2, 2, 3]), tldr=rng.choice(TLDRS)))
+    if all((c["label"], c["heuristic"], c["order"]) == (calls[0]["label"], calls[0]["heuristic"], calls[0]["order"]) for c in calls):
+        calls[-1]["order"] = calls[0]["order"] % 3 + 1
+    return dict(rows=rows, calls=calls)
 
 
 def load_corpus(pid):
@@ -217,14 +259,26 @@ def tolerance(c):
 
 
 def evaluate(cases, pid="C18"):
-    """Runs impl and model; returns per case dict(status, clause, impl, model, checker)."""
+    """Runs impl and model; returns per case the judgement of its first violating call (else of its first call), plus the
+    statuses of all its calls.  Every call of a history is judged against the model for ITS OWN arguments."""
     if not cases:
         return []
     impl = vlib.run_impl("impl_c18.py", {"cases": cases})["results"]
+    units = []                                   # (case index, call index, unit dict, impl result of that call)
+    for ci, (case, r) in enumerate(zip(cases, impl)):
+        calls = calls_of(case)
+        rs = r.get("calls") or []
+        for k, call in enumerate(calls):
+            rk = rs[k] if k < len(rs) else {"ok": False, "error": "no result for this call"}
+            units.append((ci, k, unit_of(case, call), rk))
     exprs = []
     applic = []
-    for c, r in zip(cases, impl):
-        T = "[" + "; ".join("(%s%%N, %s%%N, %s)" % (vlib.strlit(a), vlib.strlit(b), qlit(Fraction(s))) for a, b, s in c["rows"]) + "]"
+    Tcache = {}
+    for ci, k, c, r in units:
+        if ci not in Tcache:
+            Tcache = {ci: "[" + "; ".join("(%s%%N, %s%%N, %s)" % (vlib.strlit(a), vlib.strlit(b), qlit(Fraction(s)))
+                                          for a, b, s in c["rows"]) + "]"}
+        T = Tcache[ci]
         heur, lbl = vlib.strlit(c["heuristic"]) + "%N", vlib.strlit(c["label"]) + "%N"
         so = obs_table(r.get("singles")) if r.get("ok") else None
         ao = obs_table(r.get("aggregated")) if r.get("ok") else None
@@ -241,14 +295,26 @@ def evaluate(cases, pid="C18"):
                      "nan_table %s %s T, enct (some_cells (pre %s T)), %s, %s)"
                      % (T, qlit(tol), heur, lbl, c["order"], heur, lbl, c["order"], heur, lbl, lbl, chk1, chk2))
     vals = vlib.coq_eval(pid, HEADER, exprs, shard=40)
-    out = []
-    for c, r, v, (a1, a2) in zip(cases, impl, vals, applic):
+    per_case = [[] for _ in cases]
+    for (ci, k, c, r), v, (a1, a2) in zip(units, vals, applic):
         j = judge(c, r, v)
         if not a1:
             j["checker"]["cells_okb"] = None
         if not a2:
             j["checker"]["aggregated_cells_okb"] = None
-        out.append(j)
+        j["call_index"] = k
+        j["call"] = {x: c[x] for x in ("label", "heuristic", "order", "tldr")}
+        per_case[ci].append(j)
+    out = []
+    for js in per_case:
+        bad = [j for j in js if j["status"] == "violation"]
+        e = dict(bad[0] if bad else js[0])
+        if bad and len(js) > 1:
+            e["clause"] = "call %d of %d (label_column=%r, heuristic=%r, interaction_order=%d, tldr=%r): %s" % (
+                e["call_index"] + 1, len(js), e["call"]["label"], e["call"]["heuristic"], e["call"]["order"], e["call"]["tldr"], e["clause"])
+        e["call_statuses"] = [j["status"] for j in js]
+        e["max_nfeat"] = max(j["nfeat"] for j in js)
+        out.append(e)
     return out
 
 
@@ -350,11 +416,16 @@ def shrink(case, rounds=10):
     for _ in range(rounds):
         rows = cur["rows"]
         cands = []
+        if cur.get("calls") and len(cur["calls"]) > 1:
+            cands += [dict(cur, calls=cur["calls"][:i] + cur["calls"][i + 1:]) for i in range(len(cur["calls"]))]
         if len(rows) > 3:
             h = len(rows) // 2
             cands += [dict(cur, rows=rows[:h]), dict(cur, rows=rows[h:])]
-        if len(rows) > 1:
+        if 1 < len(rows) <= 30:
             cands += [dict(cur, rows=rows[:i] + rows[i + 1:]) for i in range(len(rows))]
+        elif len(rows) > 30:
+            step = max(1, len(rows) // 10)
+            cands += [dict(cur, rows=rows[:i] + rows[i + step:]) for i in range(0, len(rows), step)]
         if not cands:
             break
         try:
@@ -364,7 +435,7 @@ def shrink(case, rounds=10):
         failing = [c for c, e in zip(cands, ev) if e["status"] == "violation"]
         if not failing:
             break
-        cur = min(failing, key=lambda c: len(c["rows"]))
+        cur = min(failing, key=lambda c: (len(calls_of(c)), len(c["rows"])))
     return cur
 
 
@@ -381,17 +452,31 @@ def check(run, replay):
         cases = load_corpus("C18")
         n = 400 if run.tier == "quick" else 4000
         for _ in range(n):
-            cases.append(gen_case(run.rng))
+            u = run.rng.random()
+            # 8 % tables with 21..60 listed features (tldr preview vs written file), 15 % call histories on one output folder
+            cases.append(gen_case(run.rng, big=(u < 0.08), history=(0.08 <= u < 0.23)))
     ev = evaluate(cases)
     hist = {"features": {}, "order": {}, "heuristic_MI": 0, "heuristic_other": 0, "annotated": 0, "degenerate_minmax": 0,
             "near_degenerate_minmax": 0, "names_with_AND_substring_not_joiner": 0, "names_with_dash_before_annotation": 0,
-            "no_label_rows": 0, "with_aggregated_rows": 0, "rows": {}, "status": {}}
+            "no_label_rows": 0, "with_aggregated_rows": 0, "rows": {}, "status": {}, "calls_per_case": {}, "tldr": {},
+            "more_than_20_listed_features": 0, "more_than_20_listed_and_truthy_tldr": 0, "history_calls_judged": 0}
     worst = None
     for c, e in zip(cases, ev):
         nf = e["nfeat"]
-        hist["features"][nf] = hist["features"].get(nf, 0) + 1
-        hist["order"][c["order"]] = hist["order"].get(c["order"], 0) + 1
-        hist["heuristic_MI" if "MI" in c["heuristic"] else "heuristic_other"] += 1
+        calls = calls_of(c)
+        hist["calls_per_case"][len(calls)] = hist["calls_per_case"].get(len(calls), 0) + 1
+        if len(calls) > 1:
+            hist["history_calls_judged"] += len(calls)
+        for cl in calls:
+            hist["tldr"][repr(cl.get("tldr", False))] = hist["tldr"].get(repr(cl.get("tldr", False)), 0) + 1
+            hist["order"][cl["order"]] = hist["order"].get(cl["order"], 0) + 1
+            hist["heuristic_MI" if "MI" in cl["heuristic"] else "heuristic_other"] += 1
+        if e["max_nfeat"] > 20:
+            hist["more_than_20_listed_features"] += 1
+            if any(cl.get("tldr", False) for cl in calls):
+                hist["more_than_20_listed_and_truthy_tldr"] += 1
+        fb = nf if nf <= 20 else (nf // 10) * 10
+        hist["features"][fb] = hist["features"].get(fb, 0) + 1
         if any("-(" in a for a, _, _ in c["rows"]):
             hist["annotated"] += 1
         if e.get("degenerate"):
